@@ -9,6 +9,7 @@ C09 driver: one JSON request per line on stdin, one JSON answer per line on stdo
    "jobs":[job blocks the executor holds],"queries":[{"items":[..],"calls":[..],"top":..,"body":py},..]}
         -> {"runs":[{"refused","cls","idx","in_apply","written":[[name,complete]],"runner_exec","state_jobs","state_injects","job_lines","malformed","spec_ok"},..]}
      (the queries run one after the other on ONE executor; `malformed` = `execMalformedB` on the input, `spec_ok` = `noPartialPackage` on the model's outcome)
+  {"op":"kept","blocks":[job blocks],"emitted":[lines found in the rendered files]} -> {"ok":bool}   (`jobLinesKept` on an observed package)
   {"op":"obs","backend":b,"refused":b,"written":[[name,complete]],"runner_exec":b}  -> {"ok":bool}   (`noPartialPackage` on an observed outcome)
 `malformed` is the Spec predicate on the input (the harness combines it with the outcome it
 observed: `refusedIfMalformed`), `refuses` is the model's own verdict.
@@ -138,6 +139,10 @@ def runAll (b : Exec.Backend) : Exec.ExecState → List (Exec.Env × Exec.Query)
       ("state_injects", Json.arr (o.state.injects.map (fun ib => Json.str ib.name)).toArray),
       ("job_lines", jobLines),
       ("malformed", Json.bool (Exec.execMalformedB b env st q)),
+      ("jobs_unserved", Json.bool (Exec.jobsUnserved b q)),
+      ("lines_kept", Json.bool (match o.result with
+        | .ok p => Exec.jobLinesKept (Exec.jobBlocks q) p.jobLines
+        | .error _ => true)),
       ("spec_ok", Json.bool (Exec.noPartialPackage b refused o.written o.runnerExec))] :: runAll b o.state qs
 
 def handleOp (j : Json) : Except String Json := do
@@ -186,6 +191,9 @@ def handleOp (j : Json) : Except String Json := do
         | _ => env
       pure (e, ← decQuery qj)
     pure (Json.mkObj [("runs", Json.arr (runAll b ⟨jobs, []⟩ qs).toArray)])
+  else if op == "kept" then
+    let bs ← (← (← j.getObjVal? "blocks").getArr?).toList.mapM decJob
+    pure (Json.mkObj [("ok", Json.bool (Exec.jobLinesKept bs (← strList (← j.getObjVal? "emitted"))))])
   else if op == "obs" then
     let b ← decBackend j
     let w ← (← (← j.getObjVal? "written").getArr?).toList.mapM fun x => do
